@@ -197,7 +197,22 @@ type gateResult struct {
 func sendFrame(s *wsx.Session, fr *frame) error {
 	ctx, cancel := context.WithTimeout(context.Background(), 30*time.Second) // virtual
 	defer cancel()
-	return s.Conn.Write(ctx, fr.Type, fr.Payload)
+	if len(fr.SplitAt) == 0 {
+		return s.Conn.Write(ctx, fr.Type, fr.Payload)
+	}
+	// one message sent as several frames (FIN=0 + continuation frames, RFC 6455 section 5.4)
+	w, err := s.Conn.Writer(ctx, fr.Type)
+	if err != nil {
+		return err
+	}
+	prev := 0
+	for _, at := range append(append([]int{}, fr.SplitAt...), len(fr.Payload)) {
+		if _, err := w.Write(fr.Payload[prev:at]); err != nil {
+			return err
+		}
+		prev = at
+	}
+	return w.Close()
 }
 
 func runGateSession(h *wsx.Harness, job gateJob) (res gateResult) {
